@@ -251,8 +251,9 @@ def clientHeadersComplete (E : Env) (c : Cur) : R Cur :=
     if E.requestIsConnect then .ok { c with msg := { c.msg with headers := (c.msg.headers.del sTE).del sCL } }
     else .ok c
 
-/-- Unicode whitespace that `int(str)` strips, for ISO-8859-1 text -/
-def isUniSpace (b : Byte) : Bool := isPySpace b || (0x1C ≤ b && b ≤ 0x1F) || b == 0x85 || b == 0xA0
+/-- what `int(str)` strips, for ISO-8859-1 text: the C `isspace` set, and NEL / NBSP (non-ASCII white space is
+    first turned into SP by `_PyUnicode_TransformDecimalAndSpaceToASCII`; the ASCII separators 0x1C-0x1F are not) -/
+def isUniSpace (b : Byte) : Bool := isPySpace b || b == 0x85 || b == 0xA0
 
 /-- `integer(text)` for a `str` (ISO-8859-1 decoded header value) -/
 def integerStr (s : Bytes) : Option Int :=
